@@ -23,8 +23,29 @@ class Block(torch.nn.Module):
             setattr(self, k, v)
 
 
+class SubLinear(torch.nn.Linear):
+    """an instance of a subclass of Linear is a Linear module (so are torch's own NonDynamicallyQuantizableLinear)"""
+
+
+class SubConv2d(torch.nn.Conv2d):
+    pass
+
+
+class SubLayerNorm(torch.nn.LayerNorm):
+    pass
+
+
+def subclass_tree(dt):
+    from torch.nn.modules.linear import NonDynamicallyQuantizableLinear
+    return torch.nn.Sequential(
+        SubLinear(4, 3).to(dt), torch.nn.ReLU(),
+        Block(a=NonDynamicallyQuantizableLinear(3, 3, bias=True).to(dt), b=SubConv2d(2, 2, 1).to(dt), c=SubLayerNorm(4).to(dt), d=torch.nn.Linear(3, 2).to(dt)))
+
+
 def rand_leaf(rng, dt):
     r = rng.random()
+    if r < 0.06:
+        return rng.choice([lambda: SubLinear(4, 3), lambda: SubConv2d(2, 2, 1), lambda: SubLayerNorm(4)])().to(dt)
     if r < 0.3:
         return torch.nn.Linear(rng.choice([1, 4, 7, 160]), rng.choice([1, 3, 8]), bias=rng.random() < 0.7).to(dt)
     if r < 0.5:
@@ -106,7 +127,7 @@ def tree_cases(ctx, lines, expect):
     for _ in range(n):
         dt = rng.choice([torch.float32, torch.float16, torch.bfloat16])
         torch.manual_seed(rng.getrandbits(30))
-        model = rand_tree(rng, dt)
+        model = subclass_tree(dt) if _ < 4 else rand_tree(rng, dt)   # the first trees hold instances of subclasses of the eligible classes
         names = [n_ for n_, _ in model.named_modules()]
         ids = {p: i for i, p in enumerate(names)}
         before = tree_wire(model, ids)
